@@ -59,6 +59,8 @@ var Variants = []VariantInfo{
 	{Name: "bad_paramset", Class: ClassBad, Stem: "is not a provider or a provider set"},
 	// ONE injector hitting two independent errors: an ill-formed set variable it includes and a provider with an illegal signature
 	{Name: "bad_two_errors", Class: ClassBad, Stem: "multiple bindings", Stems: []string{"wrong signature for provider"}},
+	// wire.InterfaceValue(new(<empty interface>), nil): there is no value to provide
+	{Name: "bad_nilvalue", Class: ClassBad, Stem: "untyped nil"},
 	{Name: "typeerr", Class: ClassTypeErr},
 }
 
@@ -537,6 +539,31 @@ import "github.com/google/wire"
 func InitBar() {RES} {
 	wire.Build(ProvideFoo{N}, ProvideBar)
 	{RET}
+}
+`),
+		}
+	case "bad_nilvalue":
+		return []world.File{
+			f("model.go", basicModel+`
+// Payload is an empty interface.
+type Payload interface{}
+
+type Msg struct{ P Payload }
+
+func ProvideMsg(p Payload) *Msg { return &Msg{P: p} }
+`),
+			f("wire.go", injectHeader+`package {P}
+
+import "github.com/google/wire"
+
+func InitBar() {RES} {
+	wire.Build(ProvideFoo{N}, ProvideBar)
+	{RET}
+}
+
+func InitMsg() *Msg {
+	wire.Build(wire.InterfaceValue(new(Payload), nil), ProvideMsg)
+	return nil
 }
 `),
 		}
